@@ -457,7 +457,7 @@ func TestC16(t *testing.T) {
 	}
 
 	// (a') random multi-round controlled sequences
-	h.Rapid("controlled", h.N(600, 6000), func(rt *rapid.T) {
+	h.Rapid("controlled", h.N(600, 40000), func(rt *rapid.T) {
 		nkeys := rapid.IntRange(1, 2).Draw(rt, "nkeys")
 		var init [][]string
 		if rapid.Bool().Draw(rt, "init") {
@@ -478,7 +478,7 @@ func TestC16(t *testing.T) {
 	})
 
 	// (b') uncontrolled "hammer": many clients issuing the same kind of read-modify-write command on one key
-	h.Rapid("hammer", h.N(150, 3000), func(rt *rapid.T) {
+	h.Rapid("hammer", h.N(150, 20000), func(rt *rapid.T) {
 		p := c16Plan{Store: rapid.SampledFrom([]string{"example", "example", "refstore"}).Draw(rt, "store")}
 		kind := rapid.SampledFrom([]string{"GETSET", "SETNX", "INCR", "APPEND", "DECRBY", "MSETNX", "mixed"}).Draw(rt, "kind")
 		if rapid.Bool().Draw(rt, "init") {
@@ -519,7 +519,7 @@ func TestC16(t *testing.T) {
 	})
 
 	// (b) uncontrolled
-	h.Rapid("uncontrolled", h.N(400, 4000), func(rt *rapid.T) {
+	h.Rapid("uncontrolled", h.N(400, 25000), func(rt *rapid.T) {
 		p := c16Plan{Store: rapid.SampledFrom([]string{"refstore", "example", "example"}).Draw(rt, "store")}
 		nkeys := rapid.IntRange(1, 3).Draw(rt, "nkeys")
 		if rapid.Bool().Draw(rt, "init") {
